@@ -38,8 +38,10 @@ theorem mkHand_cards {T : Tables} {ht : HandType} {cs : List Card} {h : Hand}
   · cases hm
   · cases hm
   · split at hm
-    · cases hm; rfl
     · cases hm
+    · split at hm
+      · cases hm; rfl
+      · cases hm
 
 /-- **generic**: a hand type that picks the best five cards (`CombinationHand.from_game`), for which the
     constructor accepts exactly the admissible five-card hands (`P`) and orders them by `key` (smaller
